@@ -304,7 +304,37 @@ Fixpoint compile (a : ast) : option compiled :=
                   c_scope := c_scope cl ++ c_scope cr |}
       | _, _ => None
       end
-  | _ => None                       (* alias with a uid map, subquery marker, full joins: not in this model *)
+  | Join l r on JFull =>
+      (* FULL OUTER JOIN: compile_ast asserts that neither operand carries a WHERE predicate; rows of either
+         side without partner appear once, the other side's columns read NULL *)
+      match compile l, compile r with
+      | Some cl, Some cr =>
+          match q_where (c_q cl), q_where (c_q cr) with
+          | [], [] =>
+              let ds := c_defs cr ++ c_defs cl in
+              let q := c_q cl in
+              Some {| c_from := FRows (fun d =>
+                                  flat_map (fun bl =>
+                                              match filter (fun br => on_holds ds on (bl ++ br)%list) (base_rows d cr) with
+                                              | [] => [bl]
+                                              | ms => map (fun br => (bl ++ br)%list) ms
+                                              end)
+                                           (base_rows d cl)
+                                  ++ filter (fun br => negb (existsb (fun bl => on_holds ds on (bl ++ br)%list) (base_rows d cl)))
+                                            (base_rows d cr));
+                      c_cols := c_cols cl ++ c_cols cr;
+                      c_q := {| q_select := q_select q ++ q_select (c_q cr); q_part := q_part q; q_group := q_group q;
+                                q_where := []; q_having := q_having q;
+                                q_order := q_order q; q_limit := q_limit q; q_offset := q_offset q;
+                                q_summ := q_summ q |};
+                      c_labels := c_labels cr ++ c_labels cl;
+                      c_defs := ds;
+                      c_scope := c_scope cl ++ c_scope cr |}
+          | _, _ => None               (* AssertionError in compile_ast *)
+          end
+      | _, _ => None
+      end
+  | _ => None                       (* alias with a uid map, subquery marker: not in this model *)
   end.
 
 
@@ -467,6 +497,24 @@ Fixpoint flat_ok (a : ast) : bool :=
                  negb (q_summ (c_q c)) && no_limit (c_q c) && is_nil (q_order (c_q c)) && is_nil (q_part (c_q c))
                  && ds_elem_b (c_defs c) in
              plain cl && plain cr
+             && forallb (fun d => match snd d with ECol _ => true | _ => false end) (c_defs cr)
+             && scoped (c_scope cl ++ c_scope cr) on
+             && disjointb (c_scope cl) (ast_uids r) && disjointb (c_scope cr) (ast_uids l)
+             && disjointb (c_cols cl) (c_cols cr)
+             && disjointb (map fst (c_defs cl)) (map fst (c_defs cr))
+             && disjointb (q_select (c_q cl)) (map fst (c_labels cr))
+         | _, _ => false
+         end
+  | Join l r on JFull =>
+      (* as for the left join, and no computed column on the left either *)
+      flat_ok l && flat_ok r && elem on
+      && match compile l, compile r with
+         | Some cl, Some cr =>
+             let plain := fun c : compiled =>
+                 negb (q_summ (c_q c)) && no_limit (c_q c) && is_nil (q_order (c_q c)) && is_nil (q_part (c_q c))
+                 && ds_elem_b (c_defs c) in
+             plain cl && plain cr
+             && forallb (fun d => match snd d with ECol _ => true | _ => false end) (c_defs cl)
              && forallb (fun d => match snd d with ECol _ => true | _ => false end) (c_defs cr)
              && scoped (c_scope cl ++ c_scope cr) on
              && disjointb (c_scope cl) (ast_uids r) && disjointb (c_scope cr) (ast_uids l)
